@@ -102,6 +102,20 @@ CHECKS["C08"] = dict(
     note="Trusted: clang sanitizers; extents computed from UFL/basix by the harness.",
     design="5/C08",
 )
+CHECKS["C10"] = dict(
+    category="exploration",
+    technique="four Hypothesis-generated metamorphic families: sum_factorization on/off over tensor-product elements, part='diagonal' (JIT) vs diagonal of the full tensor, table tolerances vs reference, inapplicable options vs bit-identical tensors",
+    text="Each family compiles one generated form twice and compares the kernels on identical inputs (and with the reference evaluator where the relation is equality within tolerance). Families: TP quadrilateral/hexahedron cell forms with several rules and coefficients; bilinear forms with identical (blocked/mixed) argument spaces on all integral types; forms under table_rtol/atol in {1e-3..1e-14}; options that do not concern the form. A recorded finding (sum_factorization raising on cells without tensor rules) is reported as KNOWN-FINDING and excluded from further search. Sampling.",
+    note="Trusted: reference evaluator (C01), jit.compile_forms' own block extraction for the diagonal part.",
+    design="5/C10",
+)
+CHECKS["C18"] = dict(
+    category="exploration",
+    technique="Hypothesis-generated forms/expressions generated with language C and numba; differential execution (numba module executed in plain Python under an exact-size carray shim vs compiled C kernel) and descriptor comparison",
+    text="For generated forms (all integral types, several ids, math functions, conditionals, min/max/atan2, mixed/blocked elements) and expressions the numba module must be valid Python, import, and its kernels run in plain Python must reproduce the C kernel's tensor on the same inputs; all descriptor metadata must equal the C descriptor. Sampling; numba's own JIT is not exercised.",
+    note="Trusted: the C kernels (judged by C01/C02/C04 against the independent evaluator), CPython as the reference Python semantics.",
+    design="5/C18",
+)
 PENDING = {}
 
 def main():
